@@ -26,6 +26,7 @@ def wt(ID):
         os.makedirs("/tmp/seedv", exist_ok=True)
         subprocess.run(["git", "-C", "/repo", "worktree", "add", "--detach", "-q", w, head], check=True)
     else:
+        subprocess.run(["git", "-C", w, "checkout", "-q", "--", "."], check=False)
         subprocess.run(["git", "-C", w, "checkout", "-q", "--detach", head], check=True)
     return w
 
